@@ -247,6 +247,37 @@ def run(ctx):
             kinds.add("?" + keyx[:80])
     ctx.check(kinds == {"own-key-of-auth-event", "selected-key"} and len(auth_map) == 2, "C09.closure", "C09.closure:inserts", w.where(fn),
               bad_msg=f"inserts into the auth map: {sorted(kinds)} ({len(auth_map)} sites)")
+    # the auth map is the checked event's own: created inside the per-event loop, or emptied on every way back to the loop head
+    succ = {i: M.successors(b) for i, b in enumerate(body["blocks"])}
+
+    def reach(src, stop=()):
+        seen, todo = set(), [x for x in succ[src] if x not in stop]
+        while todo:
+            x = todo.pop()
+            if x in seen:
+                continue
+            seen.add(x)
+            todo += [y for y in succ[x] if y not in stop and y not in seen]
+        return seen
+    news = [bi for bi, c in M.calls(body) if re.search(r"HashMap::<[^>]*>::new$", M.callee_name(c))
+            and "(ruma_events::enums::StateEventType, alloc::string::String)" in (c.get("fnargs") or [""])[0]]
+    ins_blocks = [bi for bi, c in M.calls(body) if c["line"] in {l for _, _, l in auth_map} and re.search(r"HashMap::<[^>]*>::insert$", M.callee_name(c))]
+    in_cycle = [bi for bi in range(len(body["blocks"])) if bi in reach(bi)]
+    # head of the outermost loop: the block of a cycle that is entered from outside every cycle and reaches all other cyclic blocks
+    outer = {bi for bi in in_cycle if set(in_cycle) <= reach(bi) | {bi}}
+    heads = [bi for bi in outer if any(bi in succ[pb] for pb in succ if pb not in outer)]
+    fresh = bool(news) and any(bi in reach(bi) for bi in news)
+    if not fresh and heads and ins_blocks:
+        clears = {bi for bi, c in M.calls(body) if re.search(r"HashMap::<[^>]*>::(clear|drain)$", M.callee_name(c))
+                  and "(ruma_events::enums::StateEventType, alloc::string::String)" in (c.get("fnargs") or [""])[0]}
+        uses = [bi for bi, c in M.calls(body) if M.callee_name(c) == EA + "auth_check"]
+        # stale entry = inserted, carried to the loop head, and still there when the next event is authorised
+        fresh = bool(clears) and bool(uses) and not any(h in reach(ib, stop=clears) and u in reach(h, stop=clears)
+                                                         for ib in ins_blocks for h in heads for u in uses)
+    ctx.floor("auth map constructor / insert sites in iterative_auth_check", len(news) + len(ins_blocks), 3)
+    ctx.check(fresh, "C09.closure", "C09.closure:fresh-per-event", w.where(fn),
+              bad_msg="the map behind the closure given to auth_check is neither created per checked event nor emptied on every path from one event's inserts to the next event's auth_check: "
+                      "entries fetched for one event (e.g. one skipped with `continue`) stay visible to the next event's authorisation")
     # the selected keys come from auth_types_for_event on the event's own fields
     at = [c for _, c in M.calls(body) if M.callee_name(c) == EA + "auth_types_for_event"]
     good = len(at) == 1
